@@ -356,9 +356,9 @@ def forced_shape(cname):
         c2, _ = formula.constants(ctx.phi)
         shared = [c for n, c in c2.items() if n in c1 and "_maybe_busy_" not in n]
         return [Ob(f"{PROP}/{name}/forced_admits_every_schedule_of_mandatory", "complete", valid=And(buffer_witness(list(ctx.phi_m))), observables=shared,
-                   phi=list(ctx.phi), transform=buffer_witness, replayer="checks.c10:replay_forced"),
+                   phi=list(ctx.phi), transform=buffer_witness, replayer="checks.c10:replay_forced", twin=buffer_witness(list(ctx.phi_m))),
                 Ob(f"{PROP}/{name}/forced_admits_nothing_more", "complete", valid=And(buffer_witness(list(ctx.phi))), observables=shared,
-                   phi=list(ctx.phi_m), transform=buffer_witness, replayer="checks.c10:replay_forced")]
+                   phi=list(ctx.phi_m), transform=buffer_witness, replayer="checks.c10:replay_forced", twin=buffer_witness(list(ctx.phi)))]
 
     sh = Shape(name, build, obligations)
     sh.grid = False
@@ -391,11 +391,79 @@ def replay_forced(desc):
                 k += 1
             res[optional] = bool(ps.SchedulingSolver(problem=pb).solve())
         engine.reset_z3_globals()
-    print(f"replay: pinned schedule: mandatory constraint -> {res[False]}; optional constraint forced to apply -> {res[True]}")
+    print(f"replay: pinned schedule: plain / mandatory declaration -> {res[False]}; wrapped / forced declaration -> {res[True]}")
     if res[False] != res[True]:
-        print("CONFIRMED: an optional constraint that is forced to apply does not mean what the mandatory constraint means")
+        print("CONFIRMED: the two declarations of the same rule do not admit the same schedules")
         return 1
     return 0
+
+
+
+def _make_instance(cname, e, nm, **extra):
+    from checks import c18
+    cls = getattr(ps, cname)
+    req = [f for f, fi in cls.model_fields.items() if fi.is_required()]
+    kw = {r: c18.REQUIRED[r](e) for r in req}
+    if cname.startswith("OptionalTask"):
+        kw.update({x: e["o1"] for x in ("task", "task_2") if x in kw})
+    if cname == "IndicatorBounds":
+        kw["upper_bound"] = 40
+    if cname == "IndicatorTarget":
+        kw["value"] = 3
+    if cname in ("TasksEndSynced", "TasksStartSynced"):
+        kw["task_2"] = e["t3"]
+    if cname.startswith("ResourcePeriodically"):
+        kw.update(list_of_time_intervals=[(0, 1)], period=6)
+    kw.update(extra)
+    return cls(name=nm, **kw)
+
+
+WRAPPERS = {
+    "and_of_one": lambda mk: ps.And(name="wrap", list_of_constraints=[mk("x1")]),
+    "or_of_two_copies": lambda mk: ps.Or(name="wrap", list_of_constraints=[mk("x1"), mk("x2")]),
+    "implied_by_true": lambda mk: ps.Implies(name="wrap", condition=True, list_of_constraints=[mk("x1")]),
+    "then_branch_of_true": lambda mk: ps.IfThenElse(name="wrap", condition=True, then_list_of_constraints=[mk("x1")], else_list_of_constraints=[z3.BoolVal(False)]),
+}
+
+
+def wrapped_shape(wrapper, cname):
+    """a constraint used as the (only effective) operand of a connective in positive position means what it means
+    when declared on its own - for every constraint class (twin builds, both directions)"""
+    name = f"wrapped_equals_plain/{wrapper}/{cname}"
+
+    def declare(wrapped):
+        from checks import c18
+        e = c18._env()
+        if wrapped:
+            WRAPPERS[wrapper](lambda nm: _make_instance(cname, e, nm))
+        else:
+            _make_instance(cname, e, "x1")
+
+    def build(P):
+        pb1 = ps.SchedulingProblem(name="plain", horizon=12)
+        declare(False)
+        s1 = ps.SchedulingSolver(problem=pb1)
+        s1.initialize()
+        phi_p = list(s1._solver.assertions())
+        pb2 = ps.SchedulingProblem(name="wrapped", horizon=12)
+        declare(True)
+        return Ctx(problem=pb2, phi_p=phi_p)
+
+    def obligations(ctx):
+        from checks.common import buffer_witness
+        c1, _ = formula.constants(ctx.phi_p)
+        c2, _ = formula.constants(ctx.phi)
+        shared = [c for n, c in c2.items() if n in c1 and "_maybe_busy_" not in n]
+        return [Ob(f"{PROP}/{name}/wrapped_admits_every_schedule_of_plain", "complete", valid=And(buffer_witness(list(ctx.phi_p))), observables=shared,
+                   phi=list(ctx.phi), transform=buffer_witness, replayer="checks.c10:replay_forced", twin=buffer_witness(list(ctx.phi_p))),
+                Ob(f"{PROP}/{name}/wrapped_admits_nothing_more", "complete", valid=And(buffer_witness(list(ctx.phi))), observables=shared,
+                   phi=list(ctx.phi_p), transform=buffer_witness, replayer="checks.c10:replay_forced", twin=buffer_witness(list(ctx.phi)),
+                   timeout_ms=240000)]
+
+    sh = Shape(name, build, obligations)
+    sh.grid = False
+    sh.declare = declare
+    return sh
 
 
 
@@ -487,6 +555,14 @@ def shapes(tier):
     for cname in _optional_classes():
         out.append(optional_flag_shape(cname))
         out.append(forced_shape(cname))
+    from checks import c05 as _c05
+    for cname in _c05._constraint_classes():
+        if cname in ("ForceApplyNOptionalConstraints",):
+            continue  # (its operands must be optional constraints, themselves outside the connective)
+        for wrapper in (WRAPPERS if tier == "thorough" else ("or_of_two_copies", "then_branch_of_true")):
+            if wrapper == "or_of_two_copies" and cname in ("ResourceTasksDistance", "ResourceNonDelay") and tier != "thorough":
+                continue  # two copies of a sort network: no positional witness, the quantified query takes about a minute
+            out.append(wrapped_shape(wrapper, cname))
     # de-duplicate by name
     seen, res = set(), []
     for s in out:
